@@ -241,13 +241,23 @@ def run(repo: Repo, rep: Report) -> None:
                     rhs = [n.value for n in own_nodes(f, include_nested=True) if isinstance(n, ast.Assign)
                            and any(isinstance(t, ast.Name) and t.id == args[0].id for t in n.targets)]
                     lmaps = _label_maps(typed, name, mod)
-                    def _from_map(v):
+                    def _is_map_read(v):
                         if isinstance(v, ast.Call) and isinstance(v.func, ast.Attribute) and v.func.attr == "get":
                             return norm(v.func.value) in lmaps
                         if isinstance(v, ast.Subscript):
                             return norm(v.value) in lmaps
                         return False
-                    if rhs and all(_from_map(v) for v in rhs):
+                    def _from_map(v):
+                        if _is_map_read(v):
+                            return True
+                        # a definition of the local that is itself a freshly minted node (`m[k] = x = BNode()` / `x = BNode()` on the
+                        # miss path, `x = m.get(k)` on the hit path): re-wrapping BNode() is as generated as re-wrapping a stored value.
+                        # Only the argument-less constructor counts; BNode(<anything>) as a definition is not accepted here.
+                        if isinstance(v, ast.Call) and not v.args and not v.keywords:
+                            vcal = typed.callees(name, v)
+                            return "rdflib.term.BNode.__init__" in vcal or (not vcal and norm(v.func) in ("BNode", "bNode"))
+                        return False
+                    if rhs and any(_is_map_read(v) for v in rhs) and all(_from_map(v) for v in rhs):
                         rep.ob("C12.a-label-is-not-identity", mod, where, c, True,
                                "mapped: re-wraps the node stored in the label map %s (values are generated BNodes)" % norm(rhs[0])[:40], node=c)
                         continue
